@@ -72,6 +72,8 @@ def step (line : String) : String :=
   | "genupd" :: args => opGenUpd args
   | "noop" :: args => opNoop args
   | "testdoc" :: args => opTestDoc args
+  | "testcram" :: args => opTestCram args
+  | "testdocc" :: args => opTestDocCompat args
   | "lossy" :: args => opLossy args
   | "upddoc" :: args => opUpdDoc args
   | _ => "bad-op"
